@@ -3,7 +3,7 @@
     update, and under two different iteration orders (as listed, and reversed, both loops
     independently) for the map-consuming functions — and compares. *)
 From Coq Require Import List ZArith Bool String.
-From Paloma Require Import Base.Corr Base.Dec Evm.Assign Sys.Ambient.
+From Paloma Require Import Base.Corr Base.Dec Evm.Assign Sys.Ambient Sys.NodeLocal.
 Import ListNotations.
 Open Scope Z_scope.
 
@@ -15,7 +15,11 @@ Inductive case :=
 | CPurge (before : list (Z * Z)) (ups : list (Z * Z)) (after : list (Z * Z))
     (* metrix history store projected to (validator number in key order, number of records) *)
 | CAnyMissing (keys present : list Z) (got : bool)
-| CSortedMissing (keys present : list Z) (got : list Z).
+| CSortedMissing (keys present : list Z) (got : list Z)
+| CJailMissing (vals : list (Z * Z * bool)) (rounds : list (list Z)) (got : list Z).
+    (* consensus PruneOldMessages observed on a branch of a full-application state: vals = (validator number,
+       consensus power, jailed) before; rounds = per stale contentious message that reaches the jailing loop, the
+       validators without evidence in snapshot order; got = validator numbers jailed afterwards, ascending *)
 
 Definition amb_env (flag : bool) (rev_order : bool) : Ambient :=
   {| env := fun n => if flag then (if String.eqb n ff_name then Some ""%string else None) else None;
@@ -52,4 +56,6 @@ Definition check (c : case) : bool :=
   | CSortedMissing keys present got =>
       list_eqb Z.eqb (sorted_missing_amb (amb_env false false) keys present) got &&
       list_eqb Z.eqb (sorted_missing_amb (amb_env false true) keys present) got
+  | CJailMissing vals rounds got =>
+      list_eqb Z.eqb (jailed_ids (jail_rounds vals rounds)) got
   end.
